@@ -258,7 +258,11 @@ func genTime(r *Rng) time.Time {
 	if off == 0 {
 		return t.UTC()
 	}
-	return t.In(time.FixedZone("", off))
+	lt := t.In(time.FixedZone("", off))
+	if y := lt.Year(); y < 1 || y > 9999 { // outside the domain of time.Time.MarshalJSON
+		return t.UTC()
+	}
+	return lt
 }
 
 func genStr(r *Rng) string {
